@@ -236,19 +236,21 @@ def tri(it: M.Interp, premise: Formula, conclusion: Formula) -> tuple[str, "dict
     soft = sorted(a for a in names_ if not is_canonical(a) and not about_entry_options(it, a) and (a.startswith(NAME_RELATIONAL) or not (M.mentions(a, E) or any(M.mentions(a, f"x{i}") for i in range(6)))))
     hard = sorted(names_ - set(soft))
     for env_h in M.assignments(hard):
-        any_premise = False
-        refuted_always = True
+        # a counter-example must not depend on facts the model cannot judge: whatever their values, the premise holds and the
+        # conclusion fails
+        consistent = False
+        robust = True
         witness = None
         for env_s in M.assignments(soft):
             env = {**env_h, **env_s}
-            if not evaluate(cons, env) or not evaluate(premise, env):
+            if not evaluate(cons, env):
                 continue
-            any_premise = True
-            if evaluate(conclusion, env):
-                refuted_always = False
+            consistent = True
+            if not evaluate(premise, env) or evaluate(conclusion, env):
+                robust = False
                 break
             witness = env
-        if any_premise and refuted_always:
+        if consistent and robust:
             # a free atom that depends on the external options may stand for a pattern test in a spelling the model does not
             # know: then nothing can be said about EXCL / HAS
             opaque = sorted(a for a in names_ if not is_canonical(a) and it.taint_of_atom(a) & {"FLAG", "EXT"} and not a.startswith("ISNONE["))
